@@ -52,7 +52,7 @@ theorem sauceComments_site (d : Bytes) (comments : Nat) :
 /-- whatever `extract` returns, the header length it reports does not exceed the file length, and it can
     only panic at its own site -/
 theorem sauceInfo_site (d : Bytes) (dateOk : Bool) :
-    (sauceInfo d dateOk).SatS SauceSite (fun r => ∀ si, r = some si → si.headerLen ≤ d.size) := by
+    (sauceInfo d dateOk).SatS SauceSite (fun r => ∀ si, r = some si → si.headerLen ≤ d.size ∧ si.w < 65536) := by
   unfold sauceInfo
   split
   · intro si h; cases h
@@ -67,7 +67,7 @@ theorem sauceInfo_site (d : Bytes) (dateOk : Bool) :
         · exact True.intro
         · apply SatS.bind rd_site; intro dataType _
           apply SatS.bind rd_site; intro fileType _
-          apply SatS.bind rdU16_site; intro t1 _
+          apply SatS.bind rdU16_site; intro t1 ht1
           apply SatS.bind rdU16_site; intro t2 _
           apply SatS.bind rd_site; intro comments _
           dsimp only
@@ -80,27 +80,42 @@ theorem sauceInfo_site (d : Bytes) (dateOk : Bool) :
             apply SatS.bind usub_site; intro hl hhl
             intro si h
             cases h
-            show hl ≤ d.size
-            omega
+            refine ⟨by show hl ≤ d.size; omega, ?_⟩
+            show (if dataType = sauceTypeBinaryText then ((fileType * 2) % 65536, 25)
+                  else if dataType = sauceTypeXBin then (t1, t2)
+                  else if dataType = sauceTypeCharacter ∧ sauceCharTypes.contains fileType then (t1, t2)
+                  else ((80 : Nat), (25 : Nat))).1 < 65536
+            split
+            · show fileType * 2 % 65536 < 65536; omega
+            · split
+              · exact ht1
+              · split
+                · exact ht1
+                · show (80 : Nat) < 65536; omega
 
 /-- `len -= sauce.sauce_header_len` and `&bytes[..len]` never panic -/
 theorem dispatchLen_site (d : Bytes) (dateOk : Bool) :
-    (dispatchLen d dateOk).SatS SauceSite (fun r => r.1 ≤ d.size) := by
+    (dispatchLen d dateOk).SatS SauceSite (fun r => r.1 ≤ d.size ∧ ∀ sw sh, r.2 = some (sw, sh) → sw < 65536) := by
   unfold dispatchLen
   have h := sauceInfo_site d dateOk
   cases hs : sauceInfo d dateOk with
   | panic s => rw [hs] at h; exact h
-  | err => exact Nat.le_refl _
+  | err => exact ⟨Nat.le_refl _, fun _ _ h => by cases h⟩
   | ok r =>
     rw [hs] at h
     cases r with
-    | none => exact Nat.le_refl _
+    | none => exact ⟨Nat.le_refl _, fun _ _ h => by cases h⟩
     | some si =>
-      have hle : si.headerLen ≤ d.size := h si rfl
+      have hle : si.headerLen ≤ d.size := (h si rfl).1
+      have hw16 : si.w < 65536 := (h si rfl).2
       dsimp only
       apply SatS.bind (Sat.toSatS (usub_sat hle)); intro len hlen
       apply SatS.bind (Sat.toSatS (slice_sat (by omega))); intro _ _
-      show len ≤ d.size
+      refine ⟨by show len ≤ d.size; omega, ?_⟩
+      intro sw sh h2
+      have : si.w = sw := by
+        have := Option.some.inj h2
+        exact congrArg Prod.fst this
       omega
 
 /-- with the two SAUCE repairs of C11 in the tree (`saturating_sub`, comparison in `usize`), `extract`'s
@@ -155,6 +170,7 @@ theorem fromBytes_site (d : Bytes) (hd : FitsI32 d) (ext : String) (dateOk : Boo
     (fromBytes d ext dateOk).SatS SauceSite (fun _ => True) := by
   unfold fromBytes
   apply SatS.bind (dispatchLen_site d dateOk); intro r hr
+  obtain ⟨hr, hr16⟩ := hr
   have hsz := extract_size_le d r.1
   have hfit : FitsI32 (d.extract 0 r.1) := by
     unfold FitsI32 at hd ⊢; omega
@@ -168,7 +184,7 @@ theorem fromBytes_site (d : Bytes) (hd : FitsI32 d) (ext : String) (dateOk : Boo
       · split
         · exact SatS.map (Sat.toSatS (loadIdf_sat _ _)) (fun _ _ => True.intro)
         · split
-          · exact SatS.map (Sat.toSatS (loadTnd_sat _ hfit _)) (fun _ _ => True.intro)
+          · exact SatS.map (Sat.toSatS (loadTnd_sat _ hfit _ (fun sw sh h => by have := hr16 sw sh h; omega))) (fun _ _ => True.intro)
           · exact True.intro
 
 end IcyVerif.Loaders
